@@ -7,6 +7,8 @@ import (
 	"sync"
 	"sync/atomic"
 	"time"
+
+	"hop.computer/hop/pkg/verifhook"
 )
 
 // Deadline implements a deadline following the requirements of the net.Conn
@@ -134,6 +136,7 @@ type DeadlineChan[T any] struct {
 // If the deadline is exceeded, Cancel is called, or Close is called,
 // err will be set to a relevant error. Always check that err is nil before using b
 func (d *DeadlineChan[T]) Recv() (b T, err error) {
+	verifhook.At("common.DeadlineChan.Recv.enter")
 	// Return buffered data even if the channel is canceled
 	select {
 	case b = <-d.C:
@@ -141,13 +144,16 @@ func (d *DeadlineChan[T]) Recv() (b T, err error) {
 	default:
 		break
 	}
+	verifhook.At("common.DeadlineChan.Recv.afterPoll")
 
 	if d.closed.Load() {
 		err = io.EOF
 		return
 	}
+	verifhook.At("common.DeadlineChan.Recv.afterClosedCheck")
 
 	errChan := d.deadline.Done()
+	verifhook.At("common.DeadlineChan.Recv.beforeWait")
 	select {
 	case <-errChan:
 		err = d.deadline.Err()
@@ -167,6 +173,7 @@ func (d *DeadlineChan[T]) Recv() (b T, err error) {
 // If the deadline is exceeded, Cancel is called, or Close is called,
 // err will not be nil.
 func (d *DeadlineChan[T]) Send(b T) (err error) {
+	verifhook.At("common.DeadlineChan.Send.enter")
 	d.m.Lock()
 	defer d.m.Unlock()
 
@@ -211,6 +218,7 @@ func (d *DeadlineChan[T]) Cancel(err error) error {
 // Close cancels pending calls to Send and Recv. Those calls will return
 // io.EOF rather than os.ErrDeadlineExceeded even after the deadline has expired
 func (d *DeadlineChan[T]) Close() error {
+	verifhook.At("common.DeadlineChan.Close.enter")
 	d.m.Lock()
 	defer d.m.Unlock()
 
